@@ -353,7 +353,7 @@ def test_wp_result():
 
 # ---- 7. product structure ----------------------------------------------------------------------------------------
 def test_product():
-    check("paths", M.PATHS, ["lit", "lit_bs", "pyformat", "qmark", "insert_select", "ctas", "clone", "wp", "wp_dbschema", "wp_subset", "wp_auto", "wp_opts"])
+    check("paths", M.PATHS, ["lit", "lit_bs", "pyformat", "qmark", "insert_select", "ctas", "clone", "insert_select_cast", "ctas_cast", "wp", "wp_dbschema", "wp_subset", "wp_auto", "wp_opts"])
     A = M.allowed
     check("-0.0 not as SQL text", [A(T("FLOAT"), p, "neg_zero", -0.0) for p in M.PATHS],
           [False, False, False, False, True, True, True, True, True, True, True, True])
